@@ -256,6 +256,10 @@ func (p *Program) lookupFunc(pkgPath, name string) *ssa.Function {
 	if f, ok := sp.Members[name].(*ssa.Function); ok {
 		return f
 	}
+	// the lexer's chunk loader is a package-level function taking the lexer; as a method it is the same anchor
+	if name == "loadChunk" && pkgPath == pkgMcap {
+		return p.lookupFunc(pkgPath, "Lexer.loadChunk")
+	}
 	return nil
 }
 
